@@ -36,6 +36,7 @@ MUTANTS = [
     ("unfix-F17-epoch-hint-by-hash", ["C17"], ["unfix_F17_epoch_hint_by_hash.diff"], []),
     ("unfix-F18-welcome-id-late", ["C16", "C06"], ["unfix_F18_welcome_id_late.diff"], []),
     ("unfix-F21-welcome-marker-first", ["C12"], ["unfix_F21_welcome_marker_first.diff"], []),
+    ("unfix-F23-pointer-after-rollback", ["C18"], ["unfix_F23_pointer_after_rollback.diff"], []),
     ("c12-second-unbracketed-write-in-save-message", ["C12"], [], [(SQL + "messages.rs", """                    message.state.as_str(),
                 ],
             )
@@ -895,6 +896,7 @@ EQ = os.path.join(HERE, "equiv")
 
 # behaviour-preserving refactors: every listed check must stay SILENT (exit 0) on them — a check that fires here is a false alarm
 EQUIV = [
+    ("eq-rollback-bookkeeping-helper", ["C01", "C02", "C07", "C12", "C18", "C05", "C06"], [os.path.join(EQ, "rollback_bookkeeping_helper.diff")], []),
     ("eq-filename-validator-max-param", ["C17", "C06", "C14", "C12"], [os.path.join(EQ, "filename_validator_with_max_param.diff")], []),
     ("eq-memory-put-group-helper", ["C08", "C09", "C10", "C19", "C06", "C12"], [os.path.join(EQ, "memory_put_group_helper.diff")], []),
     # not behaviour-preserving: a partial repair sketch for F20 (name / description bounded at decode time, before the merge); the checks
